@@ -26,7 +26,7 @@ def check_C45(tier):
     core.stage()
     rep = core.Report(prop, "rider:E3+E4+E11 under profile/trace", tier, seed)
     rep.rule = ("the generator-history workloads of E3 and the exception fault-plan workloads of E4, compiled with profile=True, linetrace=True, -DCYTHON_TRACE=1 and run under "
-                "sys.setprofile, sys.settrace, or both at once (cases alternate) with a monitor checked while the run proceeds: every start event of a workload function is matched by "
+"sys.setprofile, sys.settrace, both at once, or a settrace tracer that declines some scopes (returns None on their call event; such a scope must get no further events and the program must behave as untraced) - cases alternate - with a monitor checked while the run proceeds: every start event of a workload function is matched by "
                 "exactly one return event of the same code object, properly nested; the stack of open activations is empty at the end of each history/plan; line events "
                 "occur inside the activation of their function and name a line inside its def span. Faults: the same throws, closes, abandonments and injected raises. "
                 "Third workload family (E11): generated .pyx modules - cdef functions with every exception specification (noexcept -> unraisable), cpdef + Python override, "
@@ -89,9 +89,13 @@ def _replay_e4_traced(ms, fi, arg, plan, mode):
     mon = tracemon.make(mode, ms["name"] + ".py", tracemon.function_spans(ms["src"]), f19)
     mon.install()
     try:
-        e4_exc.run_case(pair[0], fi, arg, plan, pair[2])
+        rs, _ = e4_exc.run_case(pair[0], fi, arg, plan, pair[2])
     finally:
         p = mon.finish()
+    if not p and mode == "decline":
+        ru, _ = e4_exc.run_case(pair[0], fi, arg, plan, pair[2])
+        if (ru["outcome"], ru["log"]) != (rs["outcome"], rs["log"]):
+            p = [{"what": "tracing-changes-behaviour", "traced": rs["outcome"], "untraced": ru["outcome"]}]
     return p or None
 
 
